@@ -410,7 +410,7 @@ def boundary_assignments(symbols, cs, rnd, interp, full_limit, limit):
     return out
 
 
-def semantic_problem(f, r, exc, rnd, ninterp, stats=None, nboundary=6):
+def semantic_problem(f, r, exc, rnd, ninterp, stats=None, nboundary=4):
     """None, or a Problem: the implementation's result r (or exception) breaks the property on f."""
     try:
         tf = refeval.type_of(f)
@@ -438,12 +438,12 @@ def semantic_problem(f, r, exc, rnd, ninterp, stats=None, nboundary=6):
         interps.append(refeval.random_interp(rnd, [f, r], int_range=rnd.choice([(-8, 8), (-3, 3), (-40, 40)])))
     if not closed and nboundary:
         # boundary interpretations: every value of the symbols when they are Bool / BV of at most 4 bits and there are
-        # at most 64 combinations, else 0 / +-1 / all-ones / min, max signed / neighbours of the formula's constants
+        # at most 32 combinations, else 0 / +-1 / all-ones / min, max signed / neighbours of the formula's constants
         syms = [s_ for s_ in f.get_free_variables() if not s_.symbol_type().is_function_type()]
         if syms:
             base = interps[0]
             quantified = any(n.is_quantifier() or n.is_function_application() for n in tocoq.topo([f]))
-            for asg in boundary_assignments(syms, formula_constants([f]), rnd, base, 0 if quantified else 64, 2 if quantified else nboundary):
+            for asg in boundary_assignments(syms, formula_constants([f]), rnd, base, 0 if quantified else 32, 1 if quantified else nboundary):
                 interps.append(refeval.interp_updated(base, asg))
             if stats is not None:
                 stats["boundary_interpretations"] = stats.get("boundary_interpretations", 0) + len(interps) - ninterp
